@@ -8,6 +8,7 @@ import (
 	"fmt"
 	"hash/fnv"
 	"os"
+	"regexp"
 	"sort"
 	"sync"
 )
@@ -103,6 +104,29 @@ func (r *Result) Violate(sig, detail string, c any) {
 	}
 	r.Observations["violations_total"]++
 	r.mu.Unlock()
+}
+
+// timeoutSig matches the violation classes that are decided by a wall-clock bound alone.
+var timeoutSig = regexp.MustCompile(`call-stuck|wait-stuck|goroutine-leak|waiter-not-released|cache-undercount|not-empty-after-expire|buffer-protocol`)
+
+// DemoteTimeoutVerdicts turns violations of the wall-clock-bound classes into inconclusive results.
+func (r *Result) DemoteTimeoutVerdicts(lateMs int64) {
+	r.mu.Lock()
+	defer r.mu.Unlock()
+	kept := r.Violations[:0]
+	for _, v := range r.Violations {
+		if timeoutSig.MatchString(v.Signature) {
+			r.Inconclusive++
+			r.Observations["violations_total"]--
+			r.vioSeen[v.Signature]--
+			if len(r.Notes) < 50 {
+				r.Notes = append(r.Notes, fmt.Sprintf("timeout-based finding %s not counted: this process's canary goroutine ran up to %d ms late (machine overloaded): %s", v.Signature, lateMs, v.Detail))
+			}
+			continue
+		}
+		kept = append(kept, v)
+	}
+	r.Violations = kept
 }
 
 func (r *Result) NumViolations() int {
